@@ -47,6 +47,17 @@ func Build() (string, error) {
 	return dir, nil
 }
 
+// BuildOne compiles only drv_<prog> (no sanitizer variant) into dir.
+func BuildOne(dir, prog string) error {
+	cmd := exec.Command(filepath.Join(Root(), "native", "build.sh"), dir, Repo())
+	cmd.Env = append(os.Environ(), "ONLY="+prog, "NOASAN=1")
+	out, err := cmd.CombinedOutput()
+	if err != nil {
+		return fmt.Errorf("native build failed: %v\n%s", err, out)
+	}
+	return nil
+}
+
 type MapInfo struct {
 	Name                        string
 	Type, KeySize, ValSize, Max uint32
